@@ -53,6 +53,11 @@
 (*                          delivered when it is dispatched after the         *)
 (*                          unsubscribe was processed)                        *)
 (*                                                                            *)
+(* The bounded client makes every behaviour end in a state without successor, *)
+(* so TLC's deadlock check is off; what it would have looked for is stated    *)
+(* explicitly by the quiescence invariants (NoStall, CtxRespected,            *)
+(* StopReturns, CleanShutdown) and the liveness properties.                   *)
+(*                                                                            *)
 (* Client steps (calling an API function, cancelling a context, a subscriber  *)
 (* starting / stopping to receive) are External; everything the library does  *)
 (* is Internal.  Quiescent == ~ENABLED Internal is where the harness observes.*)
